@@ -8,7 +8,7 @@ for pid in sorted(os.listdir('/verif/seeded')):
     d='/verif/seeded/'+pid
     if not os.path.isdir(d) or (only and pid not in only): continue
     meta={"property":pid,"changes":[]}
-    for x in 'AB':
+    for x in 'ABCD':
         if not os.path.exists(d+'/patch%s.diff'%x): continue
         out=subprocess.run(['/verif/tools/eval_seed.sh',d,pid,'patch%s.diff'%x,'demo%s_test.go'%x],capture_output=True,text=True,env=dict(os.environ,GOVC_NO_WITNESS='1')).stdout
         line=[l for l in out.splitlines() if l.startswith(pid+' ')]
